@@ -181,8 +181,11 @@ def run():
     res = vlib.tlc("MC_Graphs", cfg, wd, workers=8, timeout=2400, xmx="6g")
     vlib.tlc_must(res, "MC_Graphs")
     graphs = [o["rules"] for tag, o in res.lines if tag == "R"]
+    fam = [g for g in graphs if any(r["name"] == "h" for r in g)]       # GenericFamily: always replayed completely
+    if not fam:
+        raise vlib.ToolError("MC_Graphs: the generic self-reference family is missing")
     if t == "thorough" and len(graphs) > 4000:
-        graphs = rnd.sample(graphs, 4000)
+        graphs = fam + rnd.sample([g for g in graphs if g not in fam], 4000)
     docs_j = ["1", "[]", "[1]", "[[1],[]]", "{}", "{\"k\":1}", "\"abc\"", "[1,[2,[3]]]"]
     docs_c = ["01", "80", "8101", "a0", "a1616b01", "63616263", "828101820203"]
     ops = []
@@ -229,7 +232,7 @@ def run():
     wall = time.time() - t0
     slow = sorted(((r.get("us", 0), size_of(o), o["op"]) for o, r in zip(ops, results)), reverse=True)[:3]
     cov = {"states": res.distinct, "transitions": res.generated, "traces_validated_against_impl": len(events), "evaluations": len(ops), "distinct_nontrivial": len(ops) - len(verdicts),
-           "rule": "calls whose outcome is a return: %d validator calls on the rule graphs of MC_Graphs (TLC states: all assignments of 13 shapes around references to the rules a, b(, c) plus a "
+           "rule": "calls whose outcome is a return: %d validator calls on the rule graphs of MC_Graphs (TLC states: all assignments of 13 shapes around references to the rules a, b(, c) plus the generic self-reference family (9 self forms x 3 base cases x 2 orders x 4 roots) and a "
                    "self-applying generic), nesting-depth sweeps 1..64 for 8 CDDL bracket kinds / JSON / CBOR (definite, indefinite, tags), hostile CBOR heads, tag-1 and numeric extremes, "
                    "hostile control arguments, random and mutated inputs up to 64 KiB for every entry point. Non-trivial/distinct = calls that returned within the bound." % n_graph_ops,
            "samples": [{"call": ops[n_graph_ops + 3], "outcome": kind_of(ops[n_graph_ops + 3], results[n_graph_ops + 3]["obs"])}], "exhaustive": False,
